@@ -21,22 +21,33 @@ use std::panic::{catch_unwind, AssertUnwindSafe};
 
 /// live heap bytes of the whole harness process (property C11 measures differences around one structure's lifetime)
 pub static LIVE: std::sync::atomic::AtomicI64 = std::sync::atomic::AtomicI64::new(0);
+thread_local! {
+    /// live bytes allocated minus freed BY THIS THREAD (the case worker): unaffected by the printing thread
+    pub static TLIVE: std::cell::Cell<i64> = const { std::cell::Cell::new(0) };
+}
+fn tl_add(d: i64) {
+    let _ = TLIVE.try_with(|c| c.set(c.get() + d));
+}
 struct Counting;
 unsafe impl std::alloc::GlobalAlloc for Counting {
     unsafe fn alloc(&self, l: std::alloc::Layout) -> *mut u8 {
         LIVE.fetch_add(l.size() as i64, std::sync::atomic::Ordering::SeqCst);
+        tl_add(l.size() as i64);
         std::alloc::System.alloc(l)
     }
     unsafe fn dealloc(&self, p: *mut u8, l: std::alloc::Layout) {
         LIVE.fetch_sub(l.size() as i64, std::sync::atomic::Ordering::SeqCst);
+        tl_add(-(l.size() as i64));
         std::alloc::System.dealloc(p, l)
     }
     unsafe fn alloc_zeroed(&self, l: std::alloc::Layout) -> *mut u8 {
         LIVE.fetch_add(l.size() as i64, std::sync::atomic::Ordering::SeqCst);
+        tl_add(l.size() as i64);
         std::alloc::System.alloc_zeroed(l)
     }
     unsafe fn realloc(&self, p: *mut u8, l: std::alloc::Layout, n: usize) -> *mut u8 {
         LIVE.fetch_add(n as i64 - l.size() as i64, std::sync::atomic::Ordering::SeqCst);
+        tl_add(n as i64 - l.size() as i64);
         std::alloc::System.realloc(p, l, n)
     }
 }
@@ -198,7 +209,8 @@ fn run_pass(case: &Case, mode_fresh: bool) -> Pass {
         for r in &ctx.rngs {
             r.log.borrow_mut().clear();
         }
-        let before = d.obs_all(&ctx);
+        let iso = case.cfg.get("iso").map(|s| s.as_str()) != Some("0");
+        let before = if iso { d.obs_all(&ctx) } else { vec![] };
         let r = catch_unwind(AssertUnwindSafe(|| d.exec(&mut ctx, &op2)));
         let words: Vec<u64> = ctx.rngs.iter().flat_map(|r| r.take_log()).collect();
         match r {
@@ -208,7 +220,7 @@ fn run_pass(case: &Case, mode_fresh: bool) -> Pass {
                 }
                 // isolation oracle: instances the op does not name must be unchanged (clone independence,
                 // "other operand unchanged")
-                let after = d.obs_all(&ctx);
+                let after = if iso { d.obs_all(&ctx) } else { vec![] };
                 let touched = d.touched(&op2);
                 for (i, b) in before.iter().enumerate() {
                     if touched.contains(&i) {
@@ -281,7 +293,7 @@ fn main() {
     std::panic::set_hook(Box::new(|_| {}));
     let args: Vec<String> = std::env::args().collect();
     let cases = read_cases(&args[1]);
-    let limit: u64 = std::env::var("PDS_CASE_TIMEOUT_MS").ok().and_then(|s| s.parse().ok()).unwrap_or(8000);
+    let limit: u64 = std::env::var("PDS_CASE_TIMEOUT_MS").ok().and_then(|s| s.parse().ok()).unwrap_or(30000);
     let stdout = std::io::stdout();
     let mut out = std::io::BufWriter::new(stdout.lock());
     let (tx, rx) = std::sync::mpsc::channel::<String>();
